@@ -562,7 +562,9 @@ def _mk_fresh(what):
             return None
         if ip not in (None, False):
             raise Undecided(f"Series.{what}(inplace=<symbolic>)")
-        return _fresh_values_like(I, recv, what)
+        out = _fresh_values_like(I, recv, what)
+        I.ctx.trace.append(_Event(None, "series." + what, [recv] + list(args), dict(kwargs), out, getattr(I.ctx, "loop_k", None)))
+        return out
     return m
 
 
@@ -573,7 +575,9 @@ for _w in ("fillna", "replace", "interpolate", "ffill", "bfill"):
 def _s_scalar_agg(what):
     def m(I, recv, args, kwargs):
         USED.add(f"Series.{what}(): uninterpreted aggregate of the values")
-        return I.ctx.fresh_real(what)
+        r = I.ctx.fresh_real(what)
+        I.ctx.trace.append(_Event(None, "series." + what, [recv] + list(args), dict(kwargs), r, getattr(I.ctx, "loop_k", None)))
+        return r
     return m
 
 
